@@ -10,7 +10,7 @@ from typing import Any
 
 import torch
 
-from . import adapter, refmodel, spec
+from . import adapter, depmon, refmodel, spec
 from .refmodel import HP
 
 
@@ -95,6 +95,10 @@ def natural_failure(run: "SingleRun", exc: BaseException) -> bool:
     msg = str(exc)
     if not isinstance(exc, ValueError):  # (PreconditionerValueError and any tolerance error are ValueErrors)
         return False
+    if "nan or inf values in" in msg and depmon.count() > getattr(run, "dep_before", 1 << 60):
+        # torch.linalg.eigh itself returned a non-finite decomposition of a finite matrix during this step (depmon)
+        run.probes["dependency_eigh_nonfinite"] += 1
+        return True
     if not ("inverse factor matrix" in msg or "exceeded the allowed tolerance" in msg or "eigenvectors" in msg):
         return False
     for gi, hp in enumerate(run.hps):
@@ -127,6 +131,7 @@ class SingleRun:
         self.prop = prop
         self.oracles = oracles
         self.probes: Counter = Counter()
+        depmon.install()
         self.params = [spec.make_param(p).requires_grad_(True) for p in trace["params"]]
         self.param_group_of: dict[int, int] = {}
         for gi, g in enumerate(trace["groups"]):
@@ -238,6 +243,7 @@ class SingleRun:
                         else:
                             self.phases_seen[gi].add(("idle", pres))
                     exc: BaseException | None = None
+                    self.dep_before = depmon.count()
                     try:
                         self.opt.step()
                     except Exception as e:  # noqa: BLE001
